@@ -9,11 +9,24 @@ reading of .wea files, minute rounding on the sparse path, leap flag in Wea.from
 Round 3: object state machine Model/WeaObj.lean (lemmas Proofs/C12Obj.lean), histories on one Wea / one EPW
 object / one folder and process-order independence: see the section "round 3" below (it lists the consumers of
 every producer).
+
+Round 4 (kinds e-j; see the section "round 4" for the list of branches of the anchored functions and the stratum that
+reaches each): `cli_ap` = the translator given analysis periods as TEXT (1- and 2-digit hours mixed, overnight, wrapping dates,
+padded / upper-case / blank-rich forms, the leap-year EPW with `*`, refused texts), checked against an independent reading of the
+text + the EPW rows and against the library calls with the period built from NUMBERS; filters with the period built from text /
+string arguments / floats / repr / dict / duplicate and with sequence arguments as tuple / generator / iter / map; `siblings` = every
+observable and every filter on the four sibling classes (continuous, discontinuous, immutable twins) holding the same data;
+results kept across later calls and edited in place (hist, siblings); `file_shapes` = .wea files with tabs / blanks / CRLF / signs /
+padded fields / decimal and exponent numbers; `shapes` = constructors fed tuples / lists, arguments edited afterwards, dictionaries
+handed out edited, Location numbers as text; numeric-edge values (mode 2); clear skies and EPW interpolation at time steps that are not
+binary fractions of an hour, .stat files (missing optical depths refused), Zhang-Huang with pressure / DISC; get_irradiance_value(_for_hoy)
+at every sampled step of annual Weas (known finding C12-get-for-hoy-float-index); Model/WeaCli.lean + ops `cliap`, `hoyidx`.
 """
 import io
 import json
 import os
 import random
+import re
 import shutil
 import struct
 import tempfile
@@ -27,7 +40,7 @@ from harness.core import compare_batch, err_name, run_oracle_cases
 
 PROP = 'C12'
 PROOF_MODULES = ['Ladybug.Props.C12']
-GREP_MODULES = ['Ladybug.Py', 'Ladybug.Model.Cal', 'Ladybug.Model.AP', 'Ladybug.Model.Wea', 'Ladybug.Model.WeaObj',
+GREP_MODULES = ['Ladybug.Py', 'Ladybug.Model.Cal', 'Ladybug.Model.AP', 'Ladybug.Model.Wea', 'Ladybug.Model.WeaObj', 'Ladybug.Model.WeaCli',
                 'Ladybug.Proofs.C12Lemmas', 'Ladybug.Proofs.C12Files', 'Ladybug.Proofs.C12Obj', 'Ladybug.Drv.C12',
                 'Ladybug.DrvCore']
 RULE = ('correspondence: _get_datetimes / public datetimes of annual Weas at boundary + random indices for the '
@@ -52,6 +65,10 @@ RULE = ('correspondence: _get_datetimes / public datetimes of annual Weas at bou
         'stale side file, refused calls first) against the library calls made elsewhere; `order` = the same pool of cases in '
         '3-4 fresh Python processes in different orders (rare classes first / reversed / shuffled), a failure is shrunk to '
         'the case alone or to the order prefix. '
+        'Round 4: `cliap` (correspondence) = period texts in 6 written forms x digit-count / overnight / wrapping classes x matching and '
+        'non-matching (timestep, leap) of the data, and malformed texts, against Model/WeaCli.lean; `hoyidx` = index of get_irradiance_value_for_hoy; '
+        'oracle ops cli_ap, siblings, file_shapes, shapes (see the module docstring); every sequence argument also as tuple and one-shot iterable '
+        '(a one-shot iterable may be refused, never answered wrongly); branch counters `branch:*`. '
         'non-trivial = the implementation returns a value; distinct = distinct (op, input)')
 TRUSTED_BASE = [
     'modelled, not verified: CPython %-formatting (%.2f/%.3f half-even on the exact binary value, %d truncation), '
@@ -65,6 +82,9 @@ TRUSTED_BASE = [
     'duplicates rejected); the repaired header period of sparse files is not compared',
     'city names are whitespace-free words joined by single blanks (the header parser normalises white space)',
     'click option parsing, CliRunner, Sunpath (C05) and the sky models (C10) are used as given',
+    'the character-level reading of a period text (AnalysisPeriod.from_string) is the C04 model AP.fromString, executable and compared on '
+    'every run (op cliap), proved only from the token level on; a leading `+` of a number is accepted by Python int() and not by the model '
+    '(fed by the oracle only)',
     'object state machine (Model/WeaObj.lean): the Wea object is modelled as public state + the two slots _timestep / '
     '_is_leap_year; collections are (class, header period, datetimes, values); is_collection_aligned as in '
     'datacollection.py (continuous: header periods, discontinuous: datetimes only); the EPW object (unit state) and the '
@@ -125,9 +145,16 @@ def _show_dt(d):
     return '%d-%d-%d-%d-%s' % (d.month, d.day, d.hour, d.minute, _b(d.leap_year))
 
 
+_EDGE_VALS = [0.0, 0.5, 1.5, 2.5, -0.5, -1.5, 0.999999999999, 1e-12, -1e-12, 1e16, 123456789012.0, float(2 ** 53), 999.5,
+              1000.4999999999999, 3.0000000000000004, 2.9999999999999996, -2.9999999999999996, 1e15 + 0.5]
+
+
 def _vals(mode, n):
     if mode == 0:
         return list(range(n)), [n + i for i in range(n)]
+    if mode == 2:           # round 4 (numeric edges): exact halves, tiny / huge magnitudes, values one ulp off an integer
+        e = _EDGE_VALS
+        return [e[i % len(e)] for i in range(n)], [e[(7 * i + 3) % len(e)] for i in range(n)]
     return [(2 * i - 13) / 2.0 for i in range(n)], [(37 - 3 * i) / 4.0 for i in range(n)]
 
 
@@ -795,6 +822,80 @@ def correspondence(ctx):
 
     compare_batch(ctx, 'hist', cases, line_hist, lambda c: traces[json.dumps(c, sort_keys=True)][1], canon=_canon_ws,
                   key=lambda c: json.dumps(c, sort_keys=True))
+    # --- round 4: the translator's period TEXT (Model/WeaCli.lean): _load_analysis_period_str + filter_by_analysis_period
+    from ladybug.cli._helper import _load_analysis_period_str
+    cases = []
+    fixed = ['6/21 to 9/21 between 8 and 16 @1', '3/1 to 3/10 between 22 and 6 @1', '12/21 to 1/5 between 0 and 23 @1',
+             '1/1 to 1/31 between 9 and 17 @1', '06/21TO09/21BETWEEN08AND16@1', '2/28 to 3/1 between 5 and 5 @2*',
+             '1/1 to 1/2 between 8 and 24 @1', '1/1 to 6/31 between 0 and 23 @1', '6/31 to 7/1 between 0 and 23 @1',
+             '1/1 to 1/2 between 8 and 16 @7', '1/1 to 1/2 from 8 and 16 @1', '1/1 to 1/2 between 8.0 and 16 @1', ' * ']
+    for text in fixed:
+        p2 = _parse_ap_text(text)
+        cases.append((text, p2[1] if p2 else 1, p2[2] if p2 else False))
+    for k in range(ctx.n(30, 400)):
+        leap = rng.random() < 0.4
+        nd = 366 if leap else 365
+        a = rng.randrange(nd)
+        b = rng.choice([a, min(nd - 1, a + rng.randrange(1, 9)), rng.randrange(nd), (a + 2) % nd])
+        (sm, sd), (em, ed) = _md(leap, a), _md(leap, b)
+        sh, eh = _rand_hours(rng)
+        ts = rng.choice([1, 1, 1, 2, 3, 4]) if ctx.quick else rng.choice([1, 1, 2, 3, 4, 5, 6, 10, 12])
+        shape = rng.randrange(6)
+        text = _ap_text([sm, sd, sh, em, ed, eh], ts, leap, shape)
+        r = rng.random()
+        wts, wleap = ts, leap
+        if r < 0.05:
+            wts = 2 if ts == 1 else 1                          # a period of another timestep than the data
+        elif r < 0.10:
+            wleap = not leap                                   # ... of the other year kind
+        elif r < 0.14:
+            text = _ap_text([sm, 31, sh, em, 31, eh], ts, leap, shape)     # a day some months do not have
+        elif r < 0.17:
+            text = text.replace('@', '#')
+        ctx.count('cliap:hours_%s_digits_%d_%d' % ('overnight' if sh > eh else 'day', len(str(sh)), len(str(eh))))
+        ctx.count('cliap:shape_%d' % shape)
+        text = text.replace('+', '')           # (AP.pyInt? of the C04 model = String.toInt? takes no leading `+`; the oracle op cli_ap feeds it)
+        cases.append((text, wts, wleap))
+    weas = {}
+
+    def impl_cliap(c):
+        text, ts, leap = c
+        try:
+            ap = _load_analysis_period_str(text)
+        except Exception as e:
+            return 'err:' + err_name(e)
+        if (ts, leap) not in weas:
+            weas.clear()
+            n = _hours(leap) * ts
+            weas[(ts, leap)] = Wea.from_annual_values(_loc(), list(range(n)), list(range(n)), ts, leap)
+        try:
+            r = weas[(ts, leap)].filter_by_analysis_period(ap)
+        except Exception as e:
+            return 'err:%s %s' % (err_name(e), _show_ap(ap))
+        moys = [d.moy for d in r.direct_normal_irradiance.datetimes]
+        return 'ok %s %s %s %d %s' % (_show_ap(ap), _b(ap.is_overnight), _b(ap.is_reversed), len(moys), ' '.join(map(str, moys)))
+
+    # --- round 4: the index get_irradiance_value_for_hoy forms on an annual Wea (float product, truncated)
+    hcases = []
+    for ts in [1, 15] + rng.sample([2, 3, 4, 5, 6, 10, 12], 2) + ([20, 30] if not ctx.quick else []):
+        n = 8760 * ts
+        ks = [0, 1, ts, n - 1, n - 2] + [rng.randrange(n) for _ in range(25)] + ([131069, 131068] if ts == 15 else [])
+        hs = [(60 * k // ts) / 60.0 for k in ks] + [rng.uniform(0, 8759.9) for _ in range(5)] + [k / float(ts) for k in ks[:8]]
+        hcases.append((ts, hs))
+        ctx.count('hoyidx:ts=%d' % ts)
+
+    def impl_hoyidx(c):
+        ts, hs = c
+        n = 8760 * ts
+        w = Wea.from_annual_values(_loc(), list(range(n)), list(range(n)), ts)
+        return 'ok ' + ' '.join(str(int(w.get_irradiance_value_for_hoy(h)[0])) for h in hs)
+
+    compare_batch(ctx, 'hoyidx', hcases, lambda c: 'hoyidx %d %s' % (c[0], ' '.join(_fbits(h) for h in c[1])), impl_hoyidx,
+                  key=lambda c: json.dumps(c))
+    cases.sort(key=lambda c: (c[1], c[2]))
+    compare_batch(ctx, 'cliap', cases, lambda c: 'cliap %d %s %s' % (c[1], _b(c[2]), ' '.join(str(ord(ch)) for ch in c[0])),
+                  impl_cliap, canon=_canon_ws, key=lambda c: json.dumps(c))
+    weas.clear()
 
 
 def _count_file(n):
@@ -922,19 +1023,20 @@ def _apply_filter(w, f, ts, leap):
     from ladybug.analysisperiod import AnalysisPeriod
     want = _expected_positions(w, f, ts, leap)
     kind = f['kind']
+    shape = f.get('argshape')
     if kind == 'period':
-        return w.filter_by_analysis_period(AnalysisPeriod(*(f['args'] + [ts, leap]))), want
+        return w.filter_by_analysis_period(_mk_period(f['args'], ts, leap, f.get('via'), f.get('shape', 0))), want
     if kind == 'moys':
-        return w.filter_by_moys(f['moys']), want
+        return w.filter_by_moys(_shape_arg(f['moys'], shape)), want
     if kind == 'hoys':
-        return w.filter_by_hoys([m / 60.0 for m in f['moys']]), want
+        return w.filter_by_hoys(_shape_arg([m / 60.0 for m in f['moys']], shape)), want
     if kind == 'hoys_ap':
-        hoys = list(AnalysisPeriod(*(f['args'] + [ts, leap])).hoys)
+        hoys = list(_mk_period(f['args'], ts, leap, f.get('via'), f.get('shape', 0)).hoys)
         if f.get('shuffle'):
             random.Random(f['shuffle']).shuffle(hoys)
-        return w.filter_by_hoys(hoys), want
+        return w.filter_by_hoys(_shape_arg(hoys, shape)), want
     if kind == 'pattern':
-        return w.filter_by_pattern(f['pattern']), want
+        return w.filter_by_pattern(_shape_arg(f['pattern'], shape)), want
     return w.filter_by_sun_up(f['min_alt']), want
 
 
@@ -945,6 +1047,9 @@ def _check_file_rt(w, ts, leap, sig, path=None):
     p = path or _tmpfile()
     try:
         path = w.write(p)
+        if path != (p if p.lower().endswith('.wea') else p + '.wea') or not os.path.isfile(path):
+            return {'required': 'write returns the path of the .wea file it wrote', 'observed': path, 'sig': dict(sig, what='written path')}
+        p = path
         try:
             r = Wea.from_file(path, ts, leap)
         except Exception as e:
@@ -1017,6 +1122,26 @@ def check_case(op, inp):
             if w.direct_normal_irradiance[i] != i or w.diffuse_horizontal_irradiance[i] != n + i:
                 return {'required': (i, n + i), 'observed': (w.direct_normal_irradiance[i], w.diffuse_horizontal_irradiance[i]),
                         'sig': dict(sig, what='value')}
+        for i in (idx if n > 9000 else list(idx)[::7] + [n - 1]):
+            # round 4: the value asked for AT the hour of the year of a step is the value of that step (fractional hours too)
+            try:
+                g = w.get_irradiance_value_for_hoy(hoys[i])
+            except Exception as e:
+                g = 'raises ' + type(e).__name__
+            if g != (i, n + i):
+                below = g == (i - 1, n + i - 1) and int(hoys[i] * ts) == i - 1      # float product hoy * timestep just below the step index
+                return {'required': 'get_irradiance_value_for_hoy(%r) = values of step %d %r' % (hoys[i], i, (i, n + i)), 'observed': g,
+                        'sig': dict(sig, what='get_for_hoy float product below the step' if below else 'get_irradiance_value_for_hoy')}
+            m0 = 60 * i // ts
+            if m0 % 60 == 0:
+                r0 = _ref(leap, m0)
+                try:
+                    g = w.get_irradiance_value(r0.month, r0.day, r0.hour)
+                except Exception as e:
+                    g = 'raises ' + type(e).__name__
+                if g != (i, n + i):
+                    return {'required': 'get_irradiance_value%r = values of step %d' % ((r0.month, r0.day, r0.hour), i), 'observed': g,
+                            'sig': dict(sig, what='get_irradiance_value')}
         if not onhour:
             g = Wea._get_datetimes(ts, leap)
             if len(g) != n or any(g[i] != dts[i] for i in idx):
@@ -1075,14 +1200,20 @@ def check_case(op, inp):
         sig = {'filter': f['kind'], 'leap': leap, 'ts': _ts_class(ts), 'source': inp['kind']}
         w = _make_wea(inp)
         n = len(w)
+        if f.get('via') or f.get('argshape'):
+            sig['form'] = '%s/%s' % (f.get('via') or 'num', f.get('argshape') or 'list')
         try:
             r, want = _apply_filter(w, f, ts, leap)
         except AssertionError as e:
             if 'at least one value' in str(e) and not _expected_positions(w, f, ts, leap):
                 return None                                   # an empty selection is rejected by the collections
+            if f.get('argshape') in _ONE_SHOT:
+                return None                                   # a one-shot iterable may be refused (documented: a list), never answered wrongly
             return {'required': 'filter returns', 'observed': 'raises AssertionError: %s' % str(e)[:100],
                     'sig': dict(sig, what='raises AssertionError')}
         except Exception as e:
+            if f.get('argshape') in _ONE_SHOT:
+                return None
             return {'required': 'filter returns', 'observed': 'raises %s: %s' % (type(e).__name__, str(e)[:100]),
                     'sig': dict(sig, what='raises ' + type(e).__name__)}
         al = _check_aligned(r)
@@ -1103,6 +1234,25 @@ def check_case(op, inp):
         for row in got:                                       # both values come from one source position
             if row[6] != row[5] + n:
                 return {'required': 'dhi id = dni id + %d' % n, 'observed': row, 'sig': dict(sig, what='pairing')}
+        # round 4: the Wea that was filtered is what it was (rows, period) and answers the same request again the same way
+        if _coll_rows(w) != src:
+            return {'required': 'the filtered Wea keeps its rows', 'observed': _first_diff(src, _coll_rows(w)), 'sig': dict(sig, what='source rows changed')}
+        if inp['kind'] in ('annual', 'partial'):
+            exp_ap = tuple(inp['period'][:2]) + (0,) + tuple(inp['period'][2:]) + (23, ts, leap)
+            for c in (w.direct_normal_irradiance, w.diffuse_horizontal_irradiance):
+                a = c.header.analysis_period
+                got_ap = (a.st_month, a.st_day, a.st_hour, a.end_month, a.end_day, a.end_hour, a.timestep, bool(a.is_leap_year))
+                if got_ap != exp_ap:
+                    return {'required': 'the filtered Wea keeps its period %s' % (exp_ap,), 'observed': got_ap, 'sig': dict(sig, what='source period changed')}
+        if f.get('argshape') not in _ONE_SHOT and f['kind'] != 'sun_up':
+            try:
+                r2, _w = _apply_filter(w, f, ts, leap)
+                got2 = _coll_rows(r2)
+            except Exception as e:
+                got2 = 'raises %s' % type(e).__name__
+            if got2 != _coll_rows(r):
+                return {'required': 'the same request answered the same way a second time', 'observed': got2 if isinstance(got2, str) else _first_diff(_coll_rows(r), got2),
+                        'sig': dict(sig, what='second call differs')}
         if inp.get('then_write') and len(r) >= 1 and f['kind'] not in ('moys', 'hoys', 'hoys_ap'):
             return _check_file_rt(r, ts, leap, dict(sig, kind='filtered'))
         return None
@@ -1164,6 +1314,14 @@ def check_case(op, inp):
         return _check_cli_hist(inp)
     if op == 'order':
         return _check_order(inp)
+    if op == 'cli_ap':
+        return _check_cli_ap(inp)
+    if op == 'siblings':
+        return _check_siblings(inp)
+    if op == 'file_shapes':
+        return _check_file_shapes(inp)
+    if op == 'shapes':
+        return _check_shapes(inp)
     raise ValueError('unknown op ' + op)
 
 
@@ -1331,16 +1489,40 @@ def _check_sky(inp):
     from ladybug.sunpath import Sunpath
     from ladybug.skymodel import ashrae_clear_sky, ashrae_revised_clear_sky
     ts, leap = inp['ts'], inp['leap']
-    loc = _loc(*inp['loc'])
+    loc = _loc(*inp['loc']) if inp.get('loc') else _loc()
     n = _hours(leap) * ts
     sig = {'what': 'sky ' + inp['model'], 'ts': _ts_class(ts), 'leap': leap}
     sp = Sunpath.from_location(loc)
     sp.is_leap_year = leap
     adj = 30 if ts == 1 else 0
+    u17 = bool(inp.get('use_2017'))
+    taub, taud = inp.get('taub'), inp.get('taud')
     if inp['model'] == 'ashrae':
         w = Wea.from_ashrae_clear_sky(loc, inp.get('clearness', 1), ts, leap)
     elif inp['model'] == 'revised':
-        w = Wea.from_ashrae_revised_clear_sky(loc, inp['taub'], inp['taud'], ts, leap)
+        w = Wea.from_ashrae_revised_clear_sky(loc, _shape_arg(taub, inp.get('taushape')), _shape_arg(taud, inp.get('taushape')), ts, leap, u17)
+    elif inp['model'] == 'stat':
+        # the optical depths of the file, read here from its two tab-separated lines
+        path = _asset('stat', inp['file'])
+        taub = taud = None
+        with open(path, errors='ignore') as f:
+            for ln in f:
+                t = [x.strip() for x in ln.split('\t') if x.strip()]
+                if t and t[0] == 'taub (beam)' and len(t) == 13:
+                    taub = [None if x == 'N_A' else float(x) for x in t[1:]]
+                if t and t[0] == 'taud (diffuse)' and len(t) == 13:
+                    taud = [None if x == 'N_A' else float(x) for x in t[1:]]
+        try:
+            w = Wea.from_stat_file(path, ts, leap, u17)
+        except ValueError:
+            if taub is None or taud is None or None in taub or None in taud:
+                return None                                 # missing optical depths are refused
+            return {'required': 'reads', 'observed': 'ValueError', 'sig': dict(sig, what='stat refused')}
+        if taub is None or taud is None or None in taub or None in taud:
+            return {'required': 'a .stat file with missing optical depths is refused', 'observed': 'a Wea', 'sig': dict(sig, what='stat accepted')}
+        loc = w.location
+        sp = Sunpath.from_location(loc)
+        sp.is_leap_year = leap
     else:
         return _check_zh(inp, loc)
     if len(w) != n or _check_aligned(w) or not w.is_annual or w.is_leap_year != leap:
@@ -1355,7 +1537,7 @@ def _check_sky(inp):
         if inp['model'] == 'ashrae':
             a, b = ashrae_clear_sky([alt], r.month, inp.get('clearness', 1))
         else:
-            a, b = ashrae_revised_clear_sky([alt], inp['taub'][r.month - 1], inp['taud'][r.month - 1])
+            a, b = ashrae_revised_clear_sky([alt], taub[r.month - 1], taud[r.month - 1], u17)
         got = (w.direct_normal_irradiance[i], w.diffuse_horizontal_irradiance[i])
         if abs(got[0] - a[0]) > 1e-9 or abs(got[1] - b[0]) > 1e-9:
             return {'required': (a[0], b[0]), 'observed': got, 'sig': dict(sig, what='value at step')}
@@ -1382,8 +1564,16 @@ def _check_zh(inp, loc):
     db = [rnd.uniform(-10, 35) for _ in range(n)]
     ws = [rnd.uniform(0, 10) for _ in range(n)]
     mk = lambda t, u, v: HourlyContinuousCollection(Header(t, u, ap), v)
-    w = Wea.from_zhang_huang_solar(loc, mk(Frac(), 'fraction', cc), mk(RelativeHumidity(), '%', rh),
-                                   mk(Temperature(), 'C', db), mk(Speed(), 'm/s', ws))
+    pr = [rnd.uniform(80000, 103000) for _ in range(n)] if inp.get('pressure') else None
+    disc = bool(inp.get('use_disc'))
+    if pr is not None or disc:
+        from ladybug.datatype.pressure import AtmosphericStationPressure
+        w = Wea.from_zhang_huang_solar(loc, mk(Frac(), 'fraction', cc), mk(RelativeHumidity(), '%', rh),
+                                       mk(Temperature(), 'C', db), mk(Speed(), 'm/s', ws),
+                                       mk(AtmosphericStationPressure(), 'Pa', pr) if pr is not None else None, disc)
+    else:
+        w = Wea.from_zhang_huang_solar(loc, mk(Frac(), 'fraction', cc), mk(RelativeHumidity(), '%', rh),
+                                       mk(Temperature(), 'C', db), mk(Speed(), 'm/s', ws))
     if len(w) != n or _check_aligned(w) or w.analysis_period != ap:
         return {'required': n, 'observed': len(w), 'sig': dict(sig, what='shape')}
     sp = Sunpath.from_location(loc)
@@ -1392,7 +1582,7 @@ def _check_zh(inp, loc):
     cdts = w.direct_normal_irradiance.datetimes
     alts = [sp.calculate_sun_from_date_time(_lb_dt(leap, m)).altitude for m in moys]
     a, b = zhang_huang_solar_split(alts, [m // 1440 + 1 for m in moys], cc, rh, db,
-                                   [db[i - 3 * ts] for i in range(n)], ws, [101325] * n, False)
+                                   [db[i - 3 * ts] for i in range(n)], ws, pr if pr is not None else [101325] * n, disc)
     for i in range(n):
         if cdts[i].moy != moys[i]:
             return {'required': moys[i], 'observed': cdts[i].moy, 'sig': dict(sig, what='step')}
@@ -1400,6 +1590,431 @@ def _check_zh(inp, loc):
         if abs(got[0] - a[i]) > 1e-9 or abs(got[1] - b[i]) > 1e-9:
             return {'required': (a[i], b[i]), 'observed': got, 'sig': dict(sig, what='value at step')}
     return None
+
+
+# ---------------------------------------------------------------------------------------------
+# round 4: input shapes, sibling classes, aliasing of results, conventions between modules, numeric edges, rare branches
+#
+# Branches of the anchored functions and the counted stratum that reaches each (`branch:…` in evidence):
+#   from_dict        no `datetimes` key / key None (annual) · whole-day period (continuous) · hour window (discontinuous,
+#                    period kept) · count mismatch (discontinuous, annual header) · leap flag re-applied to the first/last array
+#   from_file        continuous · hour window · sparse; inside the discontinuous branch timestep == 1 (hour = int) / else (rounded minute)
+#   from_daysim_file timestep != 1 (shift) / == 1
+#   from_epw_file    timestep == 1 / != 1 (interpolation, sun below the horizon -> 0); leap EPW / common-year EPW
+#   clear skies      ashrae / revised (use_2017 False|True) / from_stat_file (missing taus refused: antartica.stat)
+#   zhang-huang      atmospheric_pressure None / given; use_disc False / True
+#   datetimes        timestep == 1 and not on-hour (+30) / else
+#   get_irradiance_value(_for_hoy)  annual (index arithmetic) / not annual (search) / not found (ValueError)
+#   write            path with / without `.wea`; write_hours
+#   filter_by_analysis_period (collections, used through Wea)  continuous whole-day slice: plain / through the year end;
+#                    hour window -> filter_by_moys; discontinuous source: re-ordered by the period
+#   AnalysisPeriod (helper of C04) built from numbers / from text (from_string: 1- and 2-digit fields mixed, padded,
+#                    upper case, `*`) / from string arguments / floats / repr round trip / dict / duplicate;
+#                    is_overnight (st_hour > end_hour) / not; is_reversed (wraps the year end) / not
+#   epw_to_wea       analysis_period None / '' / 'None' / text; output_file None / path string / file object (click); via click
+#   wea_to_constant  EPW input (side file) / .wea input
+#   EPW.to_wea       hoys None / [] / listed; path without `.wea`
+#   unreachable through the public API: the python-2 `izip`/`readmode='rb'` import branch.
+
+_ONE_SHOT = ('gen', 'iter', 'map')
+_AP_RE = re.compile(r'^ *\+?(\d+) */ *\+?(\d+) *to *\+?(\d+) */ *\+?(\d+) *between *\+?(\d+) *and *\+?(\d+) *@ *\+?(\d+) *(\*?) *$', re.I)
+
+
+def _shape_arg(seq, shape):
+    """The same data in another container: list (default), tuple, and the one-shot iterables."""
+    if not shape or shape == 'list':
+        return list(seq)
+    if shape == 'tuple':
+        return tuple(seq)
+    if shape == 'gen':
+        return (x for x in list(seq))
+    if shape == 'iter':
+        return iter(list(seq))
+    if shape == 'map':
+        return map(lambda x: x, list(seq))
+    raise ValueError(shape)
+
+
+def _ap_text(args, ts, leap, shape=0):
+    """Text forms of one analysis period (sm, sd, sh, em, ed, eh): what a user may type for the same numbers."""
+    sm, sd, sh, em, ed, eh = args
+    star = '*' if leap else ''
+    if shape == 1:                                        # two-digit fields
+        return '%02d/%02d to %02d/%02d between %02d and %02d @%02d%s' % (sm, sd, em, ed, sh, eh, ts, star)
+    if shape == 2:                                        # upper case, no blanks
+        return '%d/%dTO%d/%dBETWEEN%dAND%d@%d%s' % (sm, sd, em, ed, sh, eh, ts, star)
+    if shape == 3:                                        # blanks everywhere
+        return '  %d / %d  to  %d / %d   between  %d  and  %d  @ %d%s ' % (sm, sd, em, ed, sh, eh, ts, star)
+    if shape == 4:                                        # one hour padded, the other not; explicit signs
+        return '%d/%02d to %02d/%d between %02d and +%d @%d%s' % (sm, sd, em, ed, sh, eh, ts, star)
+    if shape == 5:                                        # mixed case, only the END hour padded
+        return '%d/%d To %d/%d Between %d And %02d @%d%s' % (sm, sd, em, ed, sh, eh, ts, star)
+    return '%d/%d to %d/%d between %d and %d @%d%s' % (sm, sd, em, ed, sh, eh, ts, star)
+
+
+def _parse_ap_text(text):
+    """Independent reading of an analysis-period text: ([sm, sd, sh, em, ed, eh], ts, leap) | None (not a period)."""
+    m = _AP_RE.match(text)
+    if not m:
+        return None
+    sm, sd, em, ed, sh, eh, ts = [int(g) for g in m.groups()[:7]]
+    leap = m.group(8) == '*'
+    days = [31, 29 if leap else 28, 31, 30, 31, 30, 31, 31, 30, 31, 30, 31]
+    if not (1 <= sm <= 12 and 1 <= em <= 12 and 1 <= sd <= days[sm - 1] and 1 <= ed <= days[em - 1]
+            and 0 <= sh <= 23 and 0 <= eh <= 23 and ts in VALID_TS):
+        return None
+    return [sm, sd, sh, em, ed, eh], ts, leap
+
+
+def _mk_period(args, ts, leap, via=None, shape=0):
+    """One analysis period built the ways a caller may build it; every way must denote the same steps."""
+    from ladybug.analysisperiod import AnalysisPeriod
+    args = list(args)
+    if not via or via == 'num':
+        return AnalysisPeriod(*(args + [ts, leap]))
+    if via == 'text':
+        return AnalysisPeriod.from_string(_ap_text(args, ts, leap, shape))
+    if via == 'strargs':
+        return AnalysisPeriod(*([str(a) for a in args] + [ts, leap]))
+    if via == 'float':
+        return AnalysisPeriod(*([float(a) for a in args] + [ts, leap]))
+    if via == 'repr':
+        return AnalysisPeriod.from_string(repr(AnalysisPeriod(*(args + [ts, leap]))))
+    if via == 'dict':
+        return AnalysisPeriod.from_dict(json.loads(json.dumps(AnalysisPeriod(*(args + [ts, leap])).to_dict())))
+    if via == 'dup':
+        return AnalysisPeriod(*(args + [ts, leap])).duplicate()
+    raise ValueError(via)
+
+
+_AP_VIAS = ['text', 'text', 'text', 'strargs', 'float', 'repr', 'dict', 'dup']
+
+
+def _rand_hours(rng):
+    """(st_hour, end_hour) with every digit-count / order class: 1-1, 1-2, 2-2 digits, overnight of each, whole day, one hour."""
+    r = rng.random()
+    if r < 0.3:
+        return rng.choice([(8, 16), (9, 17), (5, 10), (2, 11), (9, 10), (1, 23), (0, 12), (7, 19)])      # 1 digit .. 2 digits
+    if r < 0.5:
+        return rng.choice([(22, 6), (23, 0), (18, 5), (12, 2), (10, 9), (20, 3), (19, 7)])               # overnight, 2 digits .. 1 digit
+    if r < 0.6:
+        return rng.choice([(10, 15), (13, 23), (11, 12), (21, 10), (6, 2), (9, 8)])
+    if r < 0.75:
+        return (0, 23)
+    if r < 0.85:
+        h = rng.randrange(24)
+        return (h, h)
+    return (rng.randrange(24), rng.randrange(24))
+
+
+def _check_cli_ap(inp):
+    """epw-to-wea with an analysis period given as TEXT: the written steps are those the text denotes (read independently
+    of AnalysisPeriod), with the cells of the EPW rows, and the bytes are those of the library calls with a period built
+    from NUMBERS."""
+    from click.testing import CliRunner
+    from ladybug.cli.translate import translate, epw_to_wea
+    from ladybug.wea import Wea
+    from ladybug.analysisperiod import AnalysisPeriod
+    import contextlib
+    import logging
+    text, ts = inp['text'], inp.get('ts') or 1
+    parsed = _parse_ap_text(text)
+    sig = {'what': 'cli period text', 'via': inp['via'], 'file': inp['file']}
+    if parsed:
+        a = parsed[0]
+        sig.update(hours='overnight' if a[2] > a[5] else 'day', digits='%d-%d' % (len(str(a[2])), len(str(a[5]))),
+                   dates='wrap' if (a[0], a[1]) > (a[3], a[4]) else 'plain', padded=bool(re.search(r'(^|[^0-9])0\d', text)))
+    work = tempfile.mkdtemp(prefix='c12_ap_')
+    try:
+        epw = os.path.join(work, inp['file'])
+        shutil.copy(_asset('epw', inp['file']), epw)
+        loc, rows = _epw_rows(epw)
+        leap = len(rows) == 8784
+        outp = os.path.join(work, 'out.wea') if inp['out'] in ('file', 'path') else None
+        logging.disable(logging.CRITICAL)
+        try:
+            with contextlib.redirect_stdout(io.StringIO()):
+                if inp['via'] == 'cli':
+                    long = inp.get('opt', 'long') == 'long'
+                    args = ['epw-to-wea', epw, '--analysis-period' if long else '-ap', text]
+                    if inp.get('ts') is not None:
+                        args += ['--timestep' if long else '-t', str(inp['ts'])]
+                    if outp:
+                        args += ['--output-file' if long else '-f', outp]
+                    res = CliRunner().invoke(translate, args)
+                    ok = res.exit_code == 0
+                    got = (open(outp).read() if outp else res.output) if ok else None
+                    err = 'exit code %s' % res.exit_code
+                else:
+                    try:
+                        got = epw_to_wea(epw, text, ts, outp)
+                        if outp:
+                            got = open(outp).read()
+                        ok, err = True, None
+                    except Exception as e:
+                        ok, got, err = False, None, '%s: %s' % (type(e).__name__, str(e)[:100].replace('\n', ' '))
+        finally:
+            logging.disable(logging.NOTSET)
+        acceptable = parsed is not None and parsed[1] == ts and parsed[2] == leap
+        if text in ('', 'None'):
+            # `_load_analysis_period_str`: the empty text and the word None mean "the whole year"
+            if not ok:
+                return {'required': 'the translator takes %r as "no period"' % text, 'observed': err, 'sig': dict(sig, what='cli no-period text refused')}
+            if inp['via'] == 'cli' and not outp and got.startswith(_NOTE):
+                got = got[len(_NOTE):]
+            want = Wea.from_epw_file(epw, ts).to_file_string()
+            if got != want:
+                return {'required': 'the annual file', 'observed': _first_diff(want.split('\n'), got.split('\n')), 'sig': dict(sig, what='cli no-period bytes')}
+            return None
+        if not acceptable:
+            # not a period / a period of another timestep or year kind than the data: refused, or answered for nothing else
+            if ok and parsed is None:
+                return {'required': 'a text that is not an analysis period is refused', 'observed': (got or '')[:80],
+                        'sig': dict(sig, what='cli accepts bad period')}
+            return None
+        if not ok:
+            return {'required': 'the translator accepts "%s"' % text, 'observed': err, 'sig': dict(sig, what='cli period refused')}
+        if inp['via'] == 'cli' and not outp and got.startswith(_NOTE):
+            got = got[len(_NOTE):]                          # known finding C12-cli-stdout-note (reported by the `cli` op)
+        args6 = parsed[0]
+        want_moys = _ap_pred_moys(*(args6 + [ts, leap]))
+        if not want_moys:
+            return None
+        # (1) independent: the steps of the text, the cells of the rows
+        lib = Wea.from_epw_file(epw, ts) if ts != 1 else None
+        if ts == 1:
+            c1, c2 = [r[3] for r in rows], [r[4] for r in rows]
+            tol = 0 if all(float(x).is_integer() for x in c1 + c2) else 1
+            hdr, body = _epw_expected(loc, rows, [m // 60 for m in want_moys], c1, c2)
+        else:
+            tol = 0
+            hdr = _loc_header([loc[1], float(loc[6]), float(loc[7]), float(loc[8]), float(loc[9])])
+            v1, v2 = lib.direct_normal_irradiance.values, lib.diffuse_horizontal_irradiance.values
+            body = []
+            for m in want_moys:
+                r = _ref(leap, m)
+                i = m * ts // 60
+                body.append((r.month, r.day, int(Decimal('%.3f' % (r.hour + r.minute / 60.0)) * 1000), int(v1[i]), int(v2[i])))
+        d = _cmp_wea_text(got, hdr, body, tol)
+        if d:
+            return {'required': 'the %d steps of "%s" with the cells of their EPW rows' % (len(want_moys), text),
+                    'observed': '%s: %s' % d, 'sig': dict(sig, what='cli period ' + d[0])}
+        # (2) the same bytes as the library calls with the period built from numbers
+        lib = lib or Wea.from_epw_file(epw, 1)
+        want = lib.filter_by_analysis_period(AnalysisPeriod(*(args6 + [ts, leap]))).to_file_string()
+        if got != want:
+            return {'required': 'same bytes as Wea.from_epw_file(...).filter_by_analysis_period(AnalysisPeriod%s)' % (tuple(args6 + [ts, leap]),),
+                    'observed': _first_diff(want.split('\n'), got.split('\n')), 'sig': dict(sig, what='cli period bytes')}
+    finally:
+        shutil.rmtree(work, ignore_errors=True)
+    return None
+
+
+def _sibling_weas(inp):
+    """The same data on every concrete class a Wea can hold: continuous, discontinuous, and their immutable twins."""
+    from ladybug.wea import Wea
+    loc = _loc(*inp['loc']) if inp.get('loc') else _loc()
+    ts, leap = inp['ts'], inp['leap']
+    moys = _period_moys(ts, leap, *inp['period'])
+    cont = _build_cont(ts, leap, *inp['period'], mode=inp.get('mode', 0), onhour=inp.get('onhour', False), loc=loc)
+    disc = _build_disc(ts, leap, moys, inp.get('mode', 0), inp.get('onhour', False), loc=loc)
+    out = [('continuous', cont), ('discontinuous', disc)]
+    for name, w in list(out):
+        w2 = Wea(w.location, w.direct_normal_irradiance.to_immutable(), w.diffuse_horizontal_irradiance.to_immutable())
+        w2.enforce_on_hour = w.enforce_on_hour
+        out.append((name + '-immutable', w2))
+    return out
+
+
+def _check_siblings(inp):
+    """Every observable and one filter on the four sibling classes holding the same data: each equals the statement's
+    answer (hence they agree with each other)."""
+    ts, leap = inp['ts'], inp['leap']
+    f = inp.get('filter')
+    sig0 = {'what': 'siblings', 'ts': _ts_class(ts), 'leap': leap}
+    for cname, w in _sibling_weas(inp):
+        sig = dict(sig0, cls=cname)
+        st = _St(dict(inp, kind='partial'))
+        st.cont = cname.startswith('continuous')
+        res = _obs_check(w, st)
+        if res:
+            return {'required': res[1], 'observed': '%s Wea: %s: %s' % (cname, res[0], res[2]), 'sig': dict(sig, what='siblings ' + res[0])}
+        if inp.get('reads'):
+            for what in inp['reads']:
+                r2 = _read_extra(w, st, what, [0, 1, len(st.moys) - 1])
+                if r2:
+                    return {'required': r2[1], 'observed': '%s Wea: %s: %s' % (cname, r2[0], r2[2]), 'sig': dict(sig, what='siblings ' + str(r2[0]))}
+        if not f:
+            continue
+        sig['filter'] = f['kind']
+        try:
+            r, want = _apply_filter(w, f, ts, leap)
+        except AssertionError as e:
+            if ('at least one value' in str(e) and not _expected_positions(w, f, ts, leap)) or f.get('argshape') in _ONE_SHOT:
+                continue
+            return {'required': 'filter returns', 'observed': '%s Wea: AssertionError %s' % (cname, str(e)[:100]),
+                    'sig': dict(sig, what='raises AssertionError')}
+        except Exception as e:
+            if f.get('argshape') in _ONE_SHOT:
+                continue
+            return {'required': 'filter returns', 'observed': '%s Wea: %s %s' % (cname, type(e).__name__, str(e)[:100]),
+                    'sig': dict(sig, what='raises ' + type(e).__name__)}
+        al = _check_aligned(r)
+        if al:
+            return {'required': 'aligned', 'observed': '%s Wea: %s' % (cname, al), 'sig': dict(sig, what='aligned')}
+        src = _expected_rows(leap, st.moys, st.v1, st.v2)
+        want_rows, got = [src[i] for i in want], _coll_rows(r)
+        if f['kind'] in ('moys', 'hoys', 'hoys_ap'):
+            want_rows, got = sorted(want_rows), sorted(got)
+        d = _first_diff(want_rows, got)
+        if d:
+            return {'required': 'exactly the selected steps (the same on every class of collection)',
+                    'observed': '%s Wea: %s' % (cname, d), 'sig': dict(sig, what='rows')}
+        # the result is its own object: editing it leaves the source as it was
+        try:
+            r.direct_normal_irradiance[0] = -4321.0
+            r.diffuse_horizontal_irradiance[len(r) - 1] = -1234.0
+        except (TypeError, AttributeError):
+            pass
+        r.enforce_on_hour = not r.enforce_on_hour
+        res = _obs_check(w, st)
+        if res:
+            return {'required': res[1], 'observed': '%s Wea after its filter result was edited: %s: %s' % (cname, res[0], res[2]),
+                    'sig': dict(sig, what='source changed: ' + res[0])}
+    return None
+
+
+def _check_file_shapes(inp):
+    """A .wea file whose tokens are written another legal way (tabs, several blanks, CRLF, signs, padded fields,
+    decimal / exponent irradiance, more or fewer decimals of the hour) reads as the same steps and values."""
+    from ladybug.wea import Wea
+    ts, leap, shape = inp['ts'], inp['leap'], inp['shape']
+    moys = _moys_of(inp)
+    a, b = _vals(inp.get('mode', 0), len(moys))
+    sig = {'what': 'file token shapes', 'shape': shape, 'ts': _ts_class(ts), 'leap': leap, 'kind': inp['kind']}
+    sh = 30 if ts == 1 else 0
+    sep = {'tabs': '\t', 'blanks': '   '}.get(shape, ' ')
+    eol = '\r\n' if shape == 'crlf' else '\n'
+    hdr = _HDR
+    if shape == 'header':
+        hdr = ('place   Test \t City  \nlatitude\t41.98\nlongitude   87.92 \ntime_zone \t 90\nsite_elevation  201.0\n'
+               'weather_data_file_units   1\n')
+    out = [hdr.replace('\n', eol)]
+    exp = []
+    for m, x, y in zip(moys, a, b):
+        r = _ref(leap, m + sh)
+        fh = r.hour + r.minute / 60.0
+        mo, da, hr = '%d' % r.month, '%d' % r.day, '%.3f' % fh
+        v1, v2 = '%d' % x, '%d' % y
+        e1, e2 = float(int(x)), float(int(y))
+        if shape == 'padded':
+            mo, da, hr = '%02d' % r.month, '+%d' % r.day, '%06.3f' % fh
+            v1, v2 = '+%d' % abs(int(x)), '%04d' % abs(int(y))
+            e1, e2 = float(abs(int(x))), float(abs(int(y)))
+        elif shape == 'decimals':
+            hr = '%.6f' % fh if (m // 60) % 2 else ('%.4f' % fh)
+            v1, v2 = '%.1f' % (int(x) + 0.5), '%.2f' % (int(y) + 0.25)
+            e1, e2 = int(x) + 0.5, int(y) + 0.25
+        elif shape == 'exponent':
+            v1, v2 = '%e' % int(x), '%.3E' % (int(y) * 8)
+            e1, e2 = float(v1), float(v2)
+        out.append(sep.join([mo, da, hr, v1, v2]) + ('  ' if shape == 'blanks' else '') + eol)
+        r0 = _ref(leap, m)
+        exp.append((r0.month, r0.day, r0.hour, r0.minute, leap, e1, e2))
+    p = _tmpfile()
+    with open(p, 'wb') as fobj:
+        fobj.write(''.join(out).encode('ascii'))
+    try:
+        try:
+            w = Wea.from_file(p, ts, leap)
+            cnt = Wea.count_timesteps(p)
+        except Exception as e:
+            return {'required': 'the file reads', 'observed': 'raises %s: %s' % (type(e).__name__, str(e)[:100].replace('\n', ' ')),
+                    'sig': dict(sig, what='token shapes: raises ' + type(e).__name__)}
+    finally:
+        os.remove(p)
+    if cnt != len(moys):
+        return {'required': len(moys), 'observed': cnt, 'sig': dict(sig, what='token shapes: count_timesteps')}
+    al = _check_aligned(w)
+    if al:
+        return {'required': 'aligned', 'observed': al, 'sig': dict(sig, what='token shapes: aligned')}
+    d = _first_diff(exp, _coll_rows(w))
+    if d:
+        return {'required': 'the steps and values of the lines', 'observed': d, 'sig': dict(sig, what='token shapes: rows')}
+    lo = w.location
+    if (lo.city, lo.latitude, lo.longitude, lo.time_zone, lo.elevation) != ('Test City', 41.98, -87.92, -6, 201.0):
+        return {'required': _DEF_LOC, 'observed': str(lo), 'sig': dict(sig, what='token shapes: location')}
+    return None
+
+
+def _check_shapes(inp):
+    """Constructors fed the same data in other containers / number forms give the same Wea; containers handed in or
+    handed out are not shared with the object."""
+    from ladybug.wea import Wea
+    from ladybug.location import Location
+    ts, leap = inp['ts'], inp['leap']
+    n = _hours(leap) * ts
+    a, b = _vals(inp.get('mode', 0), n)
+    what = inp['what']
+    sig = {'what': 'shapes ' + what, 'ts': _ts_class(ts), 'leap': leap}
+    exp = _expected_rows(leap, [60 * i // ts for i in range(n)], a, b)
+    idx = sorted(set(i for i in inp['idx'] if i < n))
+
+    def rows_at(w):
+        r = _coll_rows(w)
+        return [r[i] for i in idx] if len(r) == n else r[:3]
+    want = [exp[i] for i in idx]
+    if what == 'annual_values':
+        la, lb = list(a), list(b)
+        w = Wea.from_annual_values(_loc(), _shape_arg(la, inp['shape']), _shape_arg(lb, inp['shape']), ts, leap)
+        if rows_at(w) != want or len(w) != n:
+            return {'required': 'values at their steps', 'observed': _first_diff(want, rows_at(w)), 'sig': dict(sig, what='shapes rows', shape=inp['shape'])}
+        la[idx[0]] = -99.0                                  # the caller's list is the caller's
+        lb[idx[-1]] = -98.0
+        la.append(5)
+        if rows_at(w) != want:
+            return {'required': 'the Wea keeps its values when the list it was built from is edited', 'observed': _first_diff(want, rows_at(w)),
+                    'sig': dict(sig, what='shapes alias: argument')}
+        w2 = Wea.from_annual_values(_loc(), list(b), list(a), ts, leap)      # a second object of the same class
+        if rows_at(w) != want:
+            return {'required': 'unchanged by a second Wea', 'observed': _first_diff(want, rows_at(w)), 'sig': dict(sig, what='shapes alias: second object')}
+        del w2
+        return None
+    if what == 'dict':
+        d = {'type': 'Wea', 'location': _loc().to_dict(), 'direct_normal_irradiance': _shape_arg(a, inp['shape']),
+             'diffuse_horizontal_irradiance': _shape_arg(b, inp['shape']), 'timestep': ts, 'is_leap_year': leap}
+        if inp.get('dts_none'):
+            d['datetimes'] = None
+        w = Wea.from_dict(d)
+        if rows_at(w) != want or not w.is_annual:
+            return {'required': 'values at their steps', 'observed': _first_diff(want, rows_at(w)), 'sig': dict(sig, what='shapes rows', shape=inp['shape'])}
+        if inp['shape'] == 'list':
+            d['direct_normal_irradiance'][idx[0]] = -99.0
+            d['diffuse_horizontal_irradiance'].append(1)
+            d['location']['city'] = 'Edited'
+            if rows_at(w) != want or w.location.city != 'Test City':
+                return {'required': 'the Wea keeps its values when the dictionary it was read from is edited',
+                        'observed': _first_diff(want, rows_at(w)), 'sig': dict(sig, what='shapes alias: dictionary')}
+        out = w.to_dict()
+        out2 = w.to_dict()
+        for k in ('direct_normal_irradiance', 'diffuse_horizontal_irradiance'):
+            if isinstance(out[k], list):
+                out[k][idx[0]] = -7.0
+        out['location']['latitude'] = 0.0
+        out['timestep'] = 99
+        if rows_at(w) != want or w.to_dict() != out2 or w.location.latitude != 41.98:
+            return {'required': 'a dictionary handed out is a copy', 'observed': 'editing it changes the Wea or its next dictionary',
+                    'sig': dict(sig, what='shapes alias: to_dict')}
+        return None
+    if what == 'location_text':
+        # Location accepts numbers as text; the header must carry the numbers
+        lo = Location('Test City', '-', 'USA', str(inp['loc'][0]), str(inp['loc'][1]), str(inp['loc'][2]), str(inp['loc'][3]))
+        w = Wea.from_annual_values(lo, a, b, ts, leap)
+        hdr = _loc_header(['Test City'] + [float(x) for x in inp['loc']])
+        if w.header.replace(' -0.00\n', ' 0.00\n') != hdr.replace(' -0.00\n', ' 0.00\n'):
+            return {'required': hdr, 'observed': w.header, 'sig': dict(sig, what='shapes header')}
+        return None
+    raise ValueError(what)
 
 
 # ---------------------------------------------------------------------------------------------
@@ -1544,6 +2159,15 @@ def _obs_check(w, st):
     al = _check_aligned(w)
     if al:
         return 'aligned', 'both collections on the same steps', al
+    if st.cont:
+        # the period a continuous Wea reports (its time steps are derived from it) is the one it was built with,
+        # on both collections - whatever was filtered out of it meanwhile
+        exp_ap = (st.period[0], st.period[1], 0, st.period[2], st.period[3], 23, st.ts, st.leap)
+        for c in (w.direct_normal_irradiance, w.diffuse_horizontal_irradiance):
+            a = c.header.analysis_period
+            got_ap = (a.st_month, a.st_day, a.st_hour, a.end_month, a.end_day, a.end_hour, a.timestep, bool(a.is_leap_year))
+            if got_ap != exp_ap:
+                return 'period of the source', exp_ap, got_ap
     cm = [d.moy for d in w.direct_normal_irradiance.datetimes]
     if cm != st.moys or any(d.leap_year != st.leap for d in w.direct_normal_irradiance.datetimes[:3]):
         return 'collection steps', 'source steps', _first_diff(st.moys, cm)
@@ -1619,13 +2243,17 @@ def _read_extra(w, st, what, arg):
             return ('duplicate: ' + res[0],) + tuple(res[1:])
         d.enforce_on_hour = not st.onhour                  # the copy is its own object
         d.location = _loc('Elsewhere', -10.0, 20.0, 1, 5.0)
-        try:
-            d.direct_normal_irradiance[0] = -777
-        except Exception:
-            pass
+        for c, v in ((d.direct_normal_irradiance, -777), (d.diffuse_horizontal_irradiance, -778)):
+            try:                                           # (an immutable twin refuses)
+                c[0] = v
+                c[len(c) - 1] = v
+            except Exception:
+                pass
+        d.metadata['city'] = 'Elsewhere'
         return None
     if what == 'file':
-        res = _check_file_rt(w, st.ts, st.leap, {}, os.path.join(_tmpdir(), 'history_%d.wea' % os.getpid()))
+        # (`noext`: a path without `.wea` - write() appends it and returns the real path)
+        res = _check_file_rt(w, st.ts, st.leap, {}, os.path.join(_tmpdir(), 'history_%d%s' % (os.getpid(), '' if arg == 'noext' else '.wea')))
         if res:
             return 'file round trip: ' + str(res['sig'].get('what')), res['required'], res['observed']
         return None
@@ -1662,13 +2290,15 @@ def _read_extra(w, st, what, arg):
                 return 'derived irradiance', 'step %d: %r' % (i, (e1, e2, e3)), (g[i], dh[i], tot[i])
         return None
     if what == 'get':
-        idx = [i for i in (arg or []) if i < n and st.moys[i] % 60 == 0]
+        idx = [i for i in (arg or []) if i < n]
         for i in idx:
             if not st.annual() and st.leap:
                 continue                        # DateTime.from_hoy has no leap flag: C08's domain
+            if st.annual() and st.ts in (15, 30, 60):
+                continue                        # known finding C12-get-for-hoy-float-index (reported by the `axis` op)
             got = w.get_irradiance_value_for_hoy(st.moys[i] / 60.0)
             r = _ref(st.leap, st.moys[i])
-            got2 = w.get_irradiance_value(r.month, r.day, r.hour)
+            got2 = w.get_irradiance_value(r.month, r.day, r.hour) if st.moys[i] % 60 == 0 else got
             if got != (st.v1[i], st.v2[i]) or got2 != got:
                 return 'get_irradiance_value', (st.v1[i], st.v2[i]), (got, got2)
         return None
@@ -1681,9 +2311,13 @@ def _read_extra(w, st, what, arg):
         try:
             r, want = _apply_filter(w, f, st.ts, st.leap)
         except AssertionError as e:
-            if 'at least one value' in str(e):
+            if 'at least one value' in str(e) or f.get('argshape') in _ONE_SHOT:
                 return None
             return 'filter ' + f['kind'], 'returns', 'AssertionError ' + str(e)[:80]
+        except Exception:
+            if f.get('argshape') in _ONE_SHOT:
+                return None                      # a one-shot iterable may be refused, never answered wrongly
+            raise
         al = _check_aligned(r)
         if al:
             return 'filter aligned', 'aligned', al
@@ -1694,6 +2328,16 @@ def _read_extra(w, st, what, arg):
         d = _first_diff(want_rows, got)
         if d:
             return 'filter ' + f['kind'], 'exactly the selected steps', d
+        # round 4: earlier results of the same object are still what they were (no shared container / header / memo) ...
+        kept = st.__dict__.setdefault('kept', [])
+        for k, (r0, rows0, f0) in enumerate(kept):
+            g0 = _coll_rows(r0)
+            if f0['kind'] in ('moys', 'hoys', 'hoys_ap'):
+                g0 = sorted(g0)
+            if g0 != rows0:
+                return 'earlier filter result changed by a later call', 'result %d (%s) as returned' % (k, f0['kind']), _first_diff(rows0, g0)
+        if len(kept) < 4:
+            kept.append((r, got, f))
         return None
     raise ValueError(what)
 
@@ -1827,6 +2471,24 @@ def _check_hist(inp):
         res = _obs_check(w2, st2)
         if res:
             return fail(len(inp['ops']), 'end', 'second object: ' + res[0], res[1], res[2], False)
+    # round 4: the kept filter results are their own objects: check them once more, edit them in place, look at the source again
+    for k, (r0, rows0, f0) in enumerate(getattr(st, 'kept', [])):
+        g0 = _coll_rows(r0)
+        if f0['kind'] in ('moys', 'hoys', 'hoys_ap'):
+            g0 = sorted(g0)
+        if g0 != rows0:
+            return fail(len(inp['ops']), 'end', 'earlier filter result changed by a later call', 'result as returned', _first_diff(rows0, g0), False)
+        try:
+            r0.direct_normal_irradiance[0] = -4321.0
+            r0.diffuse_horizontal_irradiance[len(r0) - 1] = -1234.0
+        except (TypeError, AttributeError):
+            pass
+        r0.enforce_on_hour = not r0.enforce_on_hour
+        r0.location = _loc('Elsewhere', -10.0, 20.0, 1, 5.0)
+    if getattr(st, 'kept', None):
+        res = _obs_check(w, st)
+        if res:
+            return fail(len(inp['ops']), 'end', 'source changed by editing a filter result: ' + res[0], res[1], res[2], False)
     return None
 
 
@@ -1871,12 +2533,15 @@ def _rand_hist_ops(rng, inp, nops):
                 ops.append(['rd', 'get', [rng.randrange(n) for _ in range(4)] + [0, n - 1]])
             elif what == 'filter':
                 f = _rand_filter(rng, st.ts, st.leap, st.moys, st.annual(), not st.cont)
+                _rand_forms(rng, f)
                 if f['kind'] == 'moys' and st.cont:
                     f['moys'] = [m for m in f['moys'] if m in set(st.moys)] or [st.moys[0]]
                 if f['kind'] == 'period' and not st.annual():
                     f['args'][0:2] = st.period[0:2] if st.cont else [1, 1]
                     f['args'][3:5] = st.period[2:4] if st.cont else [12, 31]
                 ops.append(['rd', 'filter', f])
+            elif what == 'file' and rng.random() < 0.3:
+                ops.append(['rd', 'file', 'noext'])
             else:
                 ops.append(['rd', what])
     return ops
@@ -2523,6 +3188,8 @@ FIXED_CORPUS = [
     ('filter', {'kind': 'sparse', 'ts': 6, 'leap': True, 'moys': [1440 + 10 * k for k in range(144) if k % 3 != 2], 'mode': 0,
                 'filter': {'kind': 'hoys_ap', 'args': [1, 2, 6, 1, 2, 18]}}),
     ('dict_leap', {'ts': 1, 'moys': [k * 60 for k in range(24 * 60, 24 * 61)]}),
+    # round 4: 4-minute data, step 131069 = hour 8737.933333333332; 8737.933333333332 * 15 = 131068.99999999999 (known finding)
+    ('axis', {'ts': 15, 'leap': False, 'onhour': False, 'idx': [0, 1, 2, 131068, 131069, 131399]}),
     ('cli', {'cmd': 'epw-to-wea', 'assets': 'epw', 'file': 'chicago.epw', 'ap': None, 'ts': 2, 'out': 'stdout'}),
     # round 3: a discontinuous collection with the same datetimes under a header of 2 steps per hour is accepted by the
     # setter; the slot `_timestep` stays 1 (known finding)
@@ -2533,6 +3200,19 @@ FIXED_CORPUS = [
 ]
 
 
+def _rand_forms(rng, f, p=0.35):
+    """Round 4: the same filter request in another form (period from text / strings / floats / repr / dict; sequence
+    arguments as tuple or one-shot iterable)."""
+    if f['kind'] in ('period', 'hoys_ap'):
+        if rng.random() < p:
+            f['via'] = rng.choice(_AP_VIAS)
+            if f['via'] == 'text':
+                f['shape'] = rng.randrange(6)
+    if f['kind'] in ('moys', 'hoys', 'hoys_ap', 'pattern') and rng.random() < p:
+        f['argshape'] = rng.choice(['tuple', 'tuple', 'tuple', 'gen', 'iter', 'map']) if f['kind'] != 'pattern' else 'tuple'
+    return f
+
+
 def _rand_filter(rng, ts, leap, moys_src, whole_year_only=True, outside_ok=True):
     step = 60 // ts
     r = rng.random()
@@ -2541,7 +3221,7 @@ def _rand_filter(rng, ts, leap, moys_src, whole_year_only=True, outside_ok=True)
         a = rng.randrange(nd)
         b = rng.choice([a, min(nd - 1, a + 1), rng.randrange(nd)])
         (sm, sd), (em, ed) = _md(leap, a), _md(leap, b)
-        sh, eh = rng.choice([(0, 23), (0, 23), (8, 17), (22, 5), (0, 12), (13, 23), (5, 5)])
+        sh, eh = rng.choice([(0, 23), (0, 23), (8, 17), (22, 5), (0, 12), (13, 23), (5, 5)]) if rng.random() < 0.5 else _rand_hours(rng)
         if whole_year_only is False and sh > eh:
             sh, eh = eh, sh
         return {'kind': 'period', 'args': [sm, sd, sh, em, ed, eh]}
@@ -2567,7 +3247,7 @@ def _oracle_cases(ctx):
     for c in FIXED_CORPUS:
         yield c
     # time axis
-    for ts in (VALID_TS if big else [1, 2, rng.choice([3, 4, 5, 6])]):
+    for ts in (VALID_TS if big else [1, 2, rng.choice([3, 4, 5, 6, 10, 12])]):
         for leap in (False, True):
             for onhour in ((False, True) if ts == 1 else (False,)):
                 n = _hours(leap) * ts
@@ -2579,7 +3259,9 @@ def _oracle_cases(ctx):
     for _ in range(ctx.n(120, 2000) * (3 if ctx.searching else 1)):
         ts = rng.choice([1, 1, 2, 3, 4, 6]) if rng.random() < 0.7 else rng.choice(VALID_TS)
         leap = rng.random() < 0.5
-        mode = rng.choice([0, 1])
+        mode = rng.choice([0, 1, 1, 2])
+        if mode == 2:
+            ctx.count('rt:numeric_edge_values')
         onhour = rng.random() < 0.2
         loc = None
         if rng.random() < 0.5:
@@ -2631,7 +3313,22 @@ def _oracle_cases(ctx):
             # a period filter must lie inside a partial source (C02: subset rule); use the hour window only
             f['args'][0:2] = inp['period'][0:2] if inp['kind'] == 'partial' else [1, 1]
             f['args'][3:5] = inp['period'][2:4] if inp['kind'] == 'partial' else [12, 31]
+        _rand_forms(rng, f)
+        if f.get('via'):
+            ctx.count('filter:period_via_' + f['via'])
+        if f.get('argshape'):
+            ctx.count('filter:arg_as_' + f['argshape'])
+        if f['kind'] == 'period':
+            ctx.count('filter:period_%s_%s' % ('overnight' if f['args'][2] > f['args'][5] else 'day',
+                                                'wrap' if (f['args'][0], f['args'][1]) > (f['args'][3], f['args'][4]) else 'plain'))
         inp.update(mode=0, filter=f, then_write=rng.random() < 0.5)
+        if inp['kind'] == 'partial' and rng.random() < 0.3 and len(src) <= 2500:
+            # round 4: the same request on every sibling class (continuous / discontinuous / immutable twins)
+            sib = {'ts': ts, 'leap': leap, 'period': inp['period'], 'mode': rng.choice([0, 1]), 'filter': f,
+                   'onhour': rng.random() < 0.2, 'reads': rng.sample(['dict', 'file', 'dup', 'iter', 'hrs', 'get'], 2)}
+            ctx.count('siblings:%s' % f['kind'])
+            yield 'siblings', sib
+            continue
         if rng.random() < 0.12:
             inp['imm'] = True
             ctx.count('filter:immutable_twin')
@@ -2640,6 +3337,31 @@ def _oracle_cases(ctx):
             ctx.count('filter:sun_up_southern_or_equator')
         ctx.count('filter:%s_on_%s' % (f['kind'], inp['kind']))
         yield 'filter', inp
+    # round 4 (kind e): in EVERY run every kind of filter request on every sibling class (continuous, discontinuous, immutable twins)
+    for rep in range(1 if not big else 8):
+        ts = rng.choice([1, 2, 3, 4, 6]) if rep else rng.choice([2, 3])
+        leap = rng.random() < 0.5
+        nd = 366 if leap else 365
+        d0 = rng.choice([0, 57, 58, nd - 2, rng.randrange(nd - 3)])
+        (m0, da0), (m1, da1) = _md(leap, d0), _md(leap, min(nd - 1, d0 + rng.choice([1, 2])))
+        per = [m0, da0, m1, da1]
+        src = _period_moys(ts, leap, *per)
+        sh, eh = _rand_hours(rng)
+        if (sh, eh) == (0, 23):
+            sh, eh = 7, 18
+        some = sorted(rng.sample(src, min(len(src), 6)))
+        reqs = [{'kind': 'period', 'args': [m0, da0, 0, m0, da0, 23]}, {'kind': 'period', 'args': [m0, da0, sh, m1, da1, eh]},
+                {'kind': 'moys', 'moys': some}, {'kind': 'hoys', 'moys': some},
+                {'kind': 'hoys_ap', 'args': [m1, da1, min(sh, eh), m1, da1, max(sh, eh)]},
+                {'kind': 'pattern', 'pattern': [rng.random() < 0.5 for _ in range(rng.choice([2, 3, 5]))] + [True]},
+                {'kind': 'pattern', 'pattern': [rng.random() < 0.6 for _ in range(len(src) - 1)] + [True]},
+                {'kind': 'pattern', 'pattern': [rng.random() < 0.6 for _ in range(len(src) + 4)] + [True]},
+                {'kind': 'sun_up', 'min_alt': rng.choice([0, -6, 10])}]
+        for f in reqs:
+            _rand_forms(rng, f, 0.25)
+            ctx.count('siblings:matrix_%s' % f['kind'])
+            yield 'siblings', {'ts': ts, 'leap': leap, 'period': per, 'mode': rng.choice([0, 1]), 'filter': f, 'onhour': ts == 1 and rng.random() < 0.3,
+                               'reads': rng.sample(['dict', 'file', 'dup', 'iter', 'hrs', 'get'], 1)}
     # filter_by_hoys with the float hours of AnalysisPeriod.hoys on sub-hourly Weas of every timestep
     # (x:20, x:40, x:12 ... are not binary fractions of an hour): annual, partial and sparse sources
     sub = [3, 5, 6, 10, 12, 15, 20, 30]
@@ -2669,6 +3391,7 @@ def _oracle_cases(ctx):
                 f['args'][4] = da2
             if rng.random() < 0.3:
                 f['shuffle'] = rng.randrange(1, 10 ** 6)
+            _rand_forms(rng, f)
             inp.update(mode=0, filter=f)
             ctx.count('filter:hoys_ap_on_%s' % srckind)
             ctx.count('filter:hoys_ap_ts=%d' % ts)
@@ -2679,8 +3402,65 @@ def _oracle_cases(ctx):
         leap = fn == 'long_beach_2021.epw' and False
         yield 'epw', {'file': fn, 'ts': 1, 'idx': _axis_indices(rng, 1, False, 50), 'to_wea': True,
                       'hoys': sorted(rng.sample(range(8760), 5))}
-    for fn, ts in ([(rng.choice(_EPWS), 2)] if not big else [(f, t) for f in _EPWS[:3] for t in (2, 4)]):
-        yield 'epw', {'file': fn, 'ts': ts, 'idx': _axis_indices(rng, ts, False, 200)}
+    for fn, ts in ([(rng.choice(_EPWS), rng.choice([2, 2, 3]))] if not big else
+                   [(f, t) for f in _EPWS[:3] for t in (2, 4)] + [('chicago.epw', 3), ('tokyo.epw', 5), ('los_angeles_no_leap_field.epw', 6)]):
+        ctx.count('branch:from_epw_file:interpolated_ts=%d' % ts)
+        yield 'epw', {'file': fn, 'ts': ts, 'idx': _axis_indices(rng, ts, fn == 'los_angeles_no_leap_field.epw', 200)}
+    # round 4: the translator given analysis periods as TEXT (every digit-count / order class of the hours, wrapping dates,
+    # padded / upper-case / blank-rich forms, the leap-year EPW with `*`), read independently of AnalysisPeriod
+    for k in range(ctx.n(5, 40) * (3 if ctx.searching else 1)):
+        fn = rng.choice(_EPWS[:3] + ['los_angeles_no_leap_field.epw'])
+        leap = fn == 'los_angeles_no_leap_field.epw'
+        nd = 366 if leap else 365
+        a = rng.randrange(nd)
+        b = rng.choice([a, min(nd - 1, a + rng.randrange(1, 12)), rng.randrange(nd), (a + 3) % nd]) if k % 5 else (a - 360) % nd
+        (sm, sd), (em, ed) = _md(leap, a), _md(leap, b)
+        sh, eh = _rand_hours(rng) if k != 0 else (8, 16)
+        ts = rng.choice([2, 3, 4]) if (big and rng.random() < 0.15) else 1
+        shape = rng.randrange(6) if k > 1 else 0
+        text = _ap_text([sm, sd, sh, em, ed, eh], ts, leap, shape)
+        r = rng.random()
+        if r < 0.06:
+            text = text.replace('between', 'from')                     # not a period: refused
+        elif r < 0.10:
+            text = _ap_text([sm, sd, sh, em, ed, 24], ts, leap, shape)   # hour 24: refused
+        elif r < 0.14 and not leap:
+            text += '*'                                                # leap period on common-year data: refused or nothing
+        if k in (1, 2) or (r >= 0.14 and r < 0.2 and k > 0):
+            text = '' if k == 1 else 'None' if k == 2 else rng.choice(['', 'None'])                            # rare branch (reached in every run): the texts that mean "no period"
+            ctx.count('branch:epw_to_wea:period_%s' % ('empty' if text == '' else 'word_None'))
+        via = rng.choice(['cli', 'func'])
+        ctx.count('cli_ap:hours_%s_digits_%d_%d' % ('overnight' if sh > eh else 'day', len(str(sh)), len(str(eh))))
+        ctx.count('cli_ap:text_shape_%d' % shape)
+        ctx.count('cli_ap:%s' % ('leap_epw' if leap else 'plain_epw'))
+        ctx.count('branch:epw_to_wea:period_text')
+        yield 'cli_ap', {'file': fn, 'text': text, 'ts': None if (ts == 1 and rng.random() < 0.5) else ts, 'via': via,
+                         'out': rng.choice(['file', 'stdout'] if via == 'cli' else ['return', 'path']), 'opt': rng.choice(['long', 'short'])}
+    # round 4: .wea files whose tokens are written another legal way; constructors fed other containers
+    shapes = ['tabs', 'blanks', 'crlf', 'header', 'padded', 'decimals', 'exponent']
+    for shape in shapes:
+        for _ in range(1 if not big else 6):
+            ts = rng.choice([1, 1, 2, 3, 4, 6, 12])
+            leap = rng.random() < 0.5
+            if rng.random() < 0.5:
+                stm, std, endm, endd, kind = _rand_period(rng, leap)
+                if kind == 'wrap' or len(_period_moys(ts, leap, stm, std, endm, endd)) > 2500:
+                    stm, std, endm, endd = 2, 28, 3, 1
+                inp = {'kind': 'partial', 'ts': ts, 'leap': leap, 'period': [stm, std, endm, endd]}
+            else:
+                inp = {'kind': 'sparse', 'ts': ts, 'leap': leap, 'moys': _rand_sparse(rng, ts, leap)}
+            inp.update(mode=rng.choice([0, 1]), shape=shape)
+            ctx.count('file_shapes:' + shape)
+            yield 'file_shapes', inp
+    for what, shape in ([('annual_values', 'list'), ('annual_values', 'tuple'), ('dict', 'list'), ('dict', 'tuple')] if big
+                        else [rng.choice([('annual_values', 'list'), ('annual_values', 'tuple')]), rng.choice([('dict', 'list'), ('dict', 'tuple')])]):
+        ts = rng.choice([1, 2, 3])
+        leap = rng.random() < 0.5
+        ctx.count('shapes:%s_%s' % (what, shape))
+        yield 'shapes', {'what': what, 'ts': ts, 'leap': leap, 'mode': rng.choice([0, 1, 2]), 'shape': shape,
+                         'idx': _axis_indices(rng, ts, leap, 10), 'dts_none': rng.random() < 0.5}
+    yield 'shapes', {'what': 'location_text', 'ts': 1, 'leap': False, 'mode': 0, 'idx': [0],
+                     'loc': rng.choice([[-33.87, 151.21, 10, 39.0], [41.98, -87.92, -6, 201.0], [0.0, 0.0, 0, 0.0], [64.125, -21.9, 0, 61.25]])}
     # CLI
     aps = [None, '6/21 to 9/21 between 8 and 16 @1', '1/1 to 12/31 between 0 and 23 @1', '12/30 to 1/2 between 0 and 23 @1',
            '2/27 to 3/1 between 0 and 23 @1', 'None', '']
@@ -2705,7 +3485,7 @@ def _oracle_cases(ctx):
         leap = rng.random() < 0.5
         yield 'const', {'kind': 'sparse', 'ts': ts, 'leap': leap, 'moys': _rand_sparse(rng, ts, leap), 'mode': 1,
                         'value': rng.choice([1000, 0, 3])}
-    for ts, leap in ([(2, False), (6, True)] if not big else [(t, l) for t in (1, 2, 3, 4, 6, 12) for l in (False, True)]):
+    for ts, leap in ([(2, False), (6, True), (1, rng.random() < 0.5)] if not big else [(t, l) for t in (1, 2, 3, 4, 6, 12) for l in (False, True)]):
         n = _hours(leap) * ts
         yield 'daysim', {'ts': ts, 'leap': leap, 'idx': [0, 1, ts // 2, ts, n - 1, n - 2] + [rng.randrange(n) for _ in range(50)]}
     taub = [0.3 + 0.01 * k for k in range(12)]
@@ -2715,21 +3495,102 @@ def _oracle_cases(ctx):
         idx = _axis_indices(rng, ts, leap, 60)
         yield 'sky', {'model': 'ashrae', 'ts': ts, 'leap': leap, 'loc': locv, 'idx': idx, 'clearness': rng.choice([1, 1.1, 0])}
         yield 'sky', {'model': 'revised', 'ts': ts, 'leap': leap, 'loc': locv, 'idx': idx, 'taub': taub, 'taud': taud}
-    for _ in range(2 if not big else 10):
+    # round 4: time steps that are not binary fractions of an hour (60.0 * i / ts is inexact), evaluated at the far end of the year too
+    for ts in ([3] if not big else [3, 5, 6, 12]):
+        leap = rng.random() < 0.5
+        locv = rng.choice([['A', 41.98, -87.92, -6, 201.0], ['B', -33.9, 151.2, 10, 6.0]])
+        n = _hours(leap) * ts
+        idx = _axis_indices(rng, ts, leap, 150) + list(range(n - 40 * ts, n, 7))
+        ctx.count('sky:nonbinary_ts=%d' % ts)
+        yield 'sky', {'model': rng.choice(['ashrae', 'revised']), 'ts': ts, 'leap': leap, 'loc': locv, 'idx': idx, 'clearness': 1,
+                      'taub': taub, 'taud': taud, 'use_2017': rng.random() < 0.5}
+    for fn in (['chicago.stat'] if not big else ['chicago.stat', 'tokyo.stat', 'santamonica.stat', 'antartica.stat']):
+        ts = 1 if not big else rng.choice([1, 2])
+        leap = rng.random() < 0.5
+        ctx.count('branch:from_stat_file')
+        yield 'sky', {'model': 'stat', 'file': fn, 'ts': ts, 'leap': leap, 'loc': None, 'idx': _axis_indices(rng, ts, leap, 40),
+                      'use_2017': rng.random() < 0.3}
+    for k in range(2 if not big else 10):
         ts = rng.choice([1, 2])
         leap = rng.random() < 0.5
         stm, std, endm, endd, kind = _rand_period(rng, leap)
         if kind == 'wrap':
             stm, std, endm, endd = 3, 1, 3, 3
         yield 'sky', {'model': 'zh', 'ts': ts, 'leap': leap, 'loc': ['A', 41.98, -87.92, -6, 201.0],
-                      'period': [stm, std, endm, endd], 'seed': rng.randrange(10 ** 6), 'idx': [0, 1, 2, 3, 4, 5, 7, 11, 23, 24, 47]}
+                      'period': [stm, std, endm, endd], 'seed': rng.randrange(10 ** 6), 'idx': [0, 1, 2, 3, 4, 5, 7, 11, 23, 24, 47],
+                      'pressure': k % 2 == 1, 'use_disc': k % 4 >= 2}
+
+
+def _count_branches(ctx, op, inp):
+    """Round 4 (kind j): which branch of the anchored functions a case reaches (see the list in the round-4 section)."""
+    c = ctx.count
+    kind = inp.get('kind') if isinstance(inp, dict) else None
+    if op in ('file_rt', 'file_shapes') or (op == 'filter' and inp.get('then_write')):
+        if kind in ('annual', 'partial') and op != 'filter':
+            c('branch:from_file:continuous')
+        else:
+            f = inp.get('filter') or {}
+            window = f.get('kind') == 'period' and not (f['args'][2] == 0 and f['args'][5] == 23)
+            c('branch:from_file:%s_%s' % ('hour_window' if window else 'sparse', 'hourly_int' if inp['ts'] == 1 else 'rounded_minute'))
+    if op == 'dict_rt':
+        c('branch:from_dict:%s' % ('no_datetimes_key' if kind == 'annual' else 'whole_day_continuous' if kind == 'partial' else 'count_mismatch_discontinuous'))
+    if op == 'shapes' and inp['what'] == 'dict' and inp.get('dts_none'):
+        c('branch:from_dict:datetimes_None')
+    if op == 'dict_leap':
+        c('branch:from_dict:leap_flag_reapplied')
+    if op == 'daysim':
+        c('branch:from_daysim_file:%s' % ('shift' if inp['ts'] != 1 else 'no_shift'))
+    if op == 'epw':
+        c('branch:from_epw_file:%s' % ('hourly' if inp['ts'] == 1 else 'interpolated_sun_down_zero'))
+        if inp['file'] == 'los_angeles_no_leap_field.epw':
+            c('branch:from_epw_file:leap_epw')
+        if inp.get('to_wea'):
+            c('branch:EPW.to_wea:annual_and_listed')
+    if op == 'sky':
+        c('branch:sky:%s%s' % (inp['model'], '_2017' if inp.get('use_2017') else ''))
+        if inp['model'] == 'zh':
+            c('branch:zhang_huang:%s_%s' % ('pressure_given' if inp.get('pressure') else 'pressure_None', 'disc' if inp.get('use_disc') else 'dirint'))
+    if op == 'axis':
+        c('branch:datetimes:%s' % ('half_hour' if inp['ts'] == 1 and not inp['onhour'] else 'as_collection'))
+        c('branch:_get_datetimes:%s_%s' % ('leap' if inp['leap'] else 'plain', 'hourly' if inp['ts'] == 1 else 'sub'))
+    if op in ('filter', 'siblings') and inp.get('filter'):
+        f = inp['filter']
+        if f['kind'] == 'period':
+            a = f['args']
+            whole = a[2] == 0 and a[5] == 23
+            wrap = (a[0], a[1]) > (a[3], a[4])
+            src = 'continuous' if kind in ('annual', 'partial') or op == 'siblings' else 'discontinuous'
+            c('branch:filter_period:%s_%s_%s' % (src, 'slice' if whole else 'window', 'wrap' if wrap else 'plain'))
+            c('branch:AnalysisPeriod:%s' % ('overnight' if a[2] > a[5] else 'not_overnight'))
+        c('branch:AnalysisPeriod:built_from_%s' % (f.get('via') or 'numbers')) if f['kind'] in ('period', 'hoys_ap') else None
+    if op == 'cli':
+        ap = inp.get('ap')
+        c('branch:%s:%s_%s' % (inp['cmd'], 'period_' + ('None' if ap is None else 'empty' if ap == '' else 'word_None' if ap == 'None' else 'text')
+                               if inp['cmd'] == 'epw-to-wea' else inp['assets'] + '_input', inp['out']))
+    if op == 'cli_ap':
+        c('branch:epw_to_wea:out_%s_%s' % (inp['via'], inp['out']))
+    if op == 'hist':
+        for o in inp['ops']:
+            if o[0] == 'rd' and o[1] == 'get':
+                c('branch:get_irradiance_value:%s' % ('annual_index' if kind == 'annual' else 'search'))
+            if o[0] == 'try' and o[1] in ('get', 'get2'):
+                c('branch:get_irradiance_value:not_found')
+            if o[0] == 'rd' and o[1] == 'hrs':
+                c('branch:write:write_hours')
+    if op == 'epw_hist':
+        for o in inp['ops']:
+            if o[0] == 'to_wea':
+                c('branch:EPW.to_wea:%s%s' % ('hoys_None' if o[1] is None else 'hoys_empty' if not o[1] else 'hoys_listed',
+                                              '_no_extension' if len(o) > 2 and o[2] else ''))
 
 
 def _all_cases(ctx):
     for c in _oracle_cases(ctx):
+        _count_branches(ctx, c[0], c[1])
         yield c
     for gen in (_hist_cases, _epw_hist_cases, _cli_hist_cases):
         for c in gen(ctx):
+            _count_branches(ctx, c[0], c[1])
             yield c
 
 
@@ -2754,7 +3615,7 @@ def oracle(ctx):
                 ctx.fail('order', short, res.get('required'), res.get('observed'), res.get('sig'))
 
 
-LEVEL_TEXT = ('Machine-checked Lean 4 theorems (38) over an executable model of wea.py (on top of the C08/C04 models): '
+LEVEL_TEXT = ('Machine-checked Lean 4 theorems (44) over an executable model of wea.py (on top of the C08/C04 models): '
               'entry i of _get_datetimes and step i of every annual Wea are minute 60*i/ts (+30 when hourly and not '
               'on-hour) for all 12 timesteps, normal and leap, and coincide; whole-day partial data (non-wrapping and '
               'wrapping) sits on the closed-form grid from its first hour; write -> read is the identity on the time '
@@ -2777,7 +3638,11 @@ LEVEL_TEXT = ('Machine-checked Lean 4 theorems (38) over an executable model of 
               'timestep/leap flag of the Wea in their header - refuted without that proviso (known finding: such a collection is '
               'accepted and the Wea keeps reporting the half hour); after any history both collections carry the same '
               'datetimes; enforce_on_hour never moves sub-hourly data; EPW.to_wea (annual) writes exactly the lines of '
-              'to_file_string of the Wea made from the same cells.')
+              'to_file_string of the Wea made from the same cells.  Round 4: the translator given a period as text filters with the period of the '
+              'same numbers (token level: every field through int(), overnight / wrapping decided on the numbers, written minutes = the C04 '
+              'membership predicate) and its selection keeps direct and diffuse values paired; get_irradiance_value_for_hoy returns step k iff the '
+              'product hoy * timestep lies in [k, k + 1) - true for every step in exact arithmetic, refuted on the IEEE product for 4-minute data '
+              '(known finding).')
 LEVEL_NOTE = ('Trusted: Lean kernel; axioms propext/Classical.choice/Quot.sound only; the correspondence run (agreement '
               'on generated inputs only); CPython string formatting/float parsing modelled at token level (the IEEE '
               'product of the sparse path is checked for all 1440 minutes on every run); collection filters (C02), '
